@@ -396,6 +396,9 @@ func runFilterPart(t *testing.T, part string, n int) {
 		if msg, stack := sstmodel.Guard(func() { runFilterCase(r, i, rng) }); msg != "" {
 			r.Violate("panic", "panic while building/probing a filter: "+msg,
 				map[string]any{"case": i, "panic": msg, "stack": stack}, map[string]any{"message": msg})
+			// A recovered panic leaks open iterators; in invariants builds their pool
+			// finalizers exit the process at the next GC. Persist the report now.
+			r.Finish(t)
 		}
 	})
 }
@@ -518,6 +521,7 @@ func TestVerifC26Tables(t *testing.T) {
 	r.Cases(n, func(i int, rng *rand.Rand) {
 		if msg, stack := sstmodel.Guard(func() { runTableCase(r, i, rng) }); msg != "" {
 			r.Violate("panic", "panic: "+msg, map[string]any{"case": i, "panic": msg, "stack": stack}, map[string]any{"message": msg})
+			r.Finish(t) // persist now: leaked iterators may end the process at the next GC (invariants finalizers)
 		}
 	})
 }
